@@ -459,14 +459,36 @@ def collect_inputs_for_node(
     inputs = {}
     mapped = node.map_config[0] if isinstance(node, GraphNode) and node.map_config else ()
     for param in node.inputs:
-        if isinstance(node, GraphNode) and param not in mapped and get_value_source(param, node, graph, state, provided_values)[0] == ValueSource.DEFAULT:
-            # A nested graph resolves (and deep-copies) its own signature defaults:
-            # once per run, hence once per item when the node maps over its inputs.
-            # A copy made here would be shared by all items of the map. (The list
-            # a node maps over is needed here even when it is a default.)
+        if isinstance(node, GraphNode) and param not in mapped and _nested_run_resolves(param, node, graph, state, provided_values):
             continue
         inputs[param] = _resolve_input(param, node, graph, state, provided_values)
     return inputs
+
+
+def _nested_run_resolves(
+    param: str,
+    node: Any,
+    graph: Graph,
+    state: GraphState,
+    provided_values: dict[str, Any],
+) -> bool:
+    """True when the nested graph of a GraphNode resolves this input by itself.
+
+    A nested graph resolves its own signature defaults and its own bindings,
+    once per run (hence once per item when the node maps over its inputs):
+    - a copy of a default made here would be shared by all items of a map;
+    - an inner binding handed down as if the caller had provided it would
+      beat the bindings of graphs nested further down (two sibling graphs
+      binding one name differently) and would be cloned by ``clone=True``.
+    Decided by where the value comes from, never by comparing values. (The
+    list a node maps over is needed by the outer run and never left out.)
+    """
+    source, _ = get_value_source(param, node, graph, state, provided_values)
+    if source == ValueSource.DEFAULT:
+        return True
+    if source == ValueSource.BOUND and param not in graph._bound:
+        return node._resolve_original_input_name(param) in node._graph.inputs.bound
+    return False
 
 
 def _resolve_input(
